@@ -831,6 +831,19 @@ func (c *cctx) evalCall(e *ast.CallExpr) cval {
 			return c.boolVal(True)
 		}
 		return c.boolVal(x.stringEq(c.st, sa, sb))
+	case "deref":
+		// deref(p): the value a pointer points to
+		a := c.eval(arg(0))
+		if a.t == nil {
+			c.fail("deref of untyped value")
+			return c.boolVal(True)
+		}
+		pt, ok := a.t.Underlying().(*types.Pointer)
+		if !ok {
+			c.fail("deref of non-pointer")
+			return c.boolVal(True)
+		}
+		return cval{x.heapLoad(c.st, pt.Elem(), x.scalarOf(a.v, a.t), ""), pt.Elem()}
 	case "same_string":
 		// identity of two strings/slices: same backing array, offset and length
 		a, b := c.eval(arg(0)), c.eval(arg(1))
